@@ -141,8 +141,6 @@ Definition xcfg_sites_expected : list site := [
 Definition cif_sites_expected : list site := [
   ("_expandAsymmetricUnit", "call:Atom", [], 1);
   ("_expandAsymmetricUnit", "call:ExpandAsymmetricUnit", [], 1);
-  ("_expandAsymmetricUnit", "call:add", [], 1);
-  ("_expandAsymmetricUnit", "call:set", [], 1);
   ("_expandAsymmetricUnit", "index", [], 5);
   ("_expandAsymmetricUnit", "index_store", [], 1);
   ("_get_atom_setters", "call:getattr", [], 1);
